@@ -122,6 +122,8 @@ def errkind(ex):
         return "notiter"
     if n == "IndexError":
         return "index"
+    if n == "OverflowError":
+        return "overflow"
     if n == "TypeError" and "does not support item assignment" in str(ex):
         return "notsub"
     if n in ("TypeError", "ValueError") and ("cannot unpack" in str(ex) or "values to unpack" in str(ex)):
